@@ -66,6 +66,8 @@ type Shared struct {
 	paranoid int // cross-check every n-th solver-free decision with the solver (0 = off)
 	overrides map[string]extFn
 	permuteMaps bool
+	exploreSched bool
+	schedBudget  int
 }
 
 func (sh *Shared) pushWork(p []decision) {
@@ -166,6 +168,14 @@ type Engine struct {
 	okPaths     int
 	pathViol    int
 	curFrame    *frame
+	threads     []*gthread
+	mainT       *gthread
+	cur         *gthread
+	abort       interface{}
+	killAck     chan struct{}
+	Goroutines  int
+	schedForks  int
+	vfs         map[string][]value // virtual files of the current path (verifVFSPut)
 	lastTrace   string
 	Asserts     int
 }
@@ -173,7 +183,7 @@ type Engine struct {
 func NewEngine(sh *Shared, sol *Solver) *Engine {
 	e := &Engine{sh: sh, prog: sh.prog, sol: sol, globals: map[*ssa.Global]*value{}, MaxSteps: 3000000, MaxDepth: 400,
 		Outcomes: map[string]int{}, FuncsSeen: map[*ssa.Function]int{}, Unsupported: map[string]int{}, Reach: map[string]int{},
-		varByName: map[string]*Term{}, vioCount: map[string]int{}}
+		varByName: map[string]*Term{}, vioCount: map[string]int{}, killAck: make(chan struct{}, 1)}
 	e.runtimeErrT = runtimeErrT
 	return e
 }
@@ -753,6 +763,9 @@ func (e *Engine) runPath(entry *ssa.Function) {
 	}
 	e.epoch++
 	e.undoOn = true
+	e.resetThreads()
+	e.vfs = nil
+	e.schedForks = 0
 	e.sol.Push()
 	outcome := "ok"
 	func() {
@@ -780,6 +793,7 @@ func (e *Engine) runPath(entry *ssa.Function) {
 		}()
 		e.call(nil, entry, nil)
 	}()
+	e.killThreads()
 	if outcome == "ok" {
 		// the solver confirms that the completed path is feasible (also a self-check of the domain propagation)
 		switch e.sol.Check() {
